@@ -217,20 +217,27 @@ def list_store(st, lst, idx, v):
     list_set_arrays(st, lst, list_len(st, lst), new)
 
 
+def defined_array(st, sort, body_fn, base="arr"):
+    """A fresh array constant a with the defining axiom  forall k. a[k] == body_fn(k)  (instead of a z3 Lambda:
+    lambda terms make the solver give up or ignore its timeout)."""
+    a = z3.Const(fresh_name(base), z3.ArraySort(I, sort))
+    k = z3.Int(fresh_name("k"))
+    st.pc.append(z3.ForAll([k], a[k] == body_fn(k), patterns=[a[k]]))
+    return a
+
+
 def list_insert(st, lst, pos, v):
     v = coerce(v, lst.elem)
     n = list_len(st, lst)
-    k = z3.Int(fresh_name("k"))
     new = []
     for a, t in zip(list_arrays(st, lst), to_terms(v, lst.elem)):
-        new.append(z3.Lambda([k], z3.If(k < pos, a[k], z3.If(k == pos, t, a[k - 1]))))
+        new.append(defined_array(st, a.sort().range(), lambda k, a=a, t=t: z3.If(k < pos, a[k], z3.If(k == pos, t, a[k - 1])), "ins"))
     list_set_arrays(st, lst, n + 1, new)
 
 
 def list_delete(st, lst, pos):
     n = list_len(st, lst)
-    k = z3.Int(fresh_name("k"))
-    new = [z3.Lambda([k], z3.If(k < pos, a[k], a[k + 1])) for a in list_arrays(st, lst)]
+    new = [defined_array(st, a.sort().range(), lambda k, a=a: z3.If(k < pos, a[k], a[k + 1]), "del") for a in list_arrays(st, lst)]
     list_set_arrays(st, lst, n - 1, new)
 
 
@@ -243,15 +250,14 @@ def list_append(st, lst, v):
 
 def list_slice(st, lst, lo, hi):
     """New list xs[lo:hi] with 0 <= lo <= hi <= len already established by the caller."""
-    k = z3.Int(fresh_name("k"))
-    new = [z3.Lambda([k], a[k + lo]) for a in list_arrays(st, lst)]
+    new = [defined_array(st, a.sort().range(), lambda k, a=a: a[k + lo], "slice") for a in list_arrays(st, lst)]
     return new_list(st, lst.elem, hi - lo, new)
 
 
 def list_concat(st, a, b):
     na, nb = list_len(st, a), list_len(st, b)
-    k = z3.Int(fresh_name("k"))
-    new = [z3.Lambda([k], z3.If(k < na, x[k], y[k - na])) for x, y in zip(list_arrays(st, a), list_arrays(st, b))]
+    new = [defined_array(st, x.sort().range(), lambda k, x=x, y=y: z3.If(k < na, x[k], y[k - na]), "cat")
+           for x, y in zip(list_arrays(st, a), list_arrays(st, b))]
     return new_list(st, a.elem, na + nb, new)
 
 
